@@ -33,7 +33,8 @@ def _log(opt_log, names):
     return out
 
 
-def one_run(tbl, sched, J=1, seed=0, continue_after_read=False, minimize=False, shared_book=False, local_class=False):
+def one_run(tbl, sched, J=1, seed=0, continue_after_read=False, minimize=False, shared_book=False, local_class=False,
+            included=()):
     """tbl[k][c][j] (j = 0..T-1), sched = [(type, dur, thin), ...]
     continue_after_read: the results object is obtained and its posterior read before the last epoch is appended and
     sampled; everything is then read from that *same* object.  minimize: minimize_transition_infos."""
@@ -48,7 +49,8 @@ def one_run(tbl, sched, J=1, seed=0, continue_after_read=False, minimize=False, 
     hdr = {"K": K, "C": C, "sched": [{"type": t, "dur": d, "thin": th} for t, d, th in sched],
            "continue_after_read": continue_after_read, "minimize": minimize, "tbl": tbl, "names": names,
            # shared_book: all kernels are of one class, i.e. they share codes *and* messages
-           "books": [book_of(1 if shared_book else k + 1) for k in range(K)], "J": J, "shared_book": shared_book, "local_class": local_class}
+           "books": [book_of(1 if shared_book else k + 1) for k in range(K)], "J": J, "shared_book": shared_book, "local_class": local_class,
+           "included": list(included)}
     ev = {"ev": "results", "crash": "", "log_all": [], "log_post_none": True, "log_post": [],
           "has_summary": False, "summary": [], "df_per_chain": [], "df_merged": [], "sample_info": {},
           "stored_post": -1, "dig_before": {}, "dig_pickle": {}, "dig_post": {}, "dig_arviz_post": {},
@@ -63,7 +65,7 @@ def one_run(tbl, sched, J=1, seed=0, continue_after_read=False, minimize=False, 
         eng, kernels, keys = E.build_engine(K, set(), C, seed, J, cfgs[:-1] if late else cfgs, error_tables=tables,
                                             cap=T + 4 * len(sched) + 8,
                                             error_books="local" if local_class else "shared" if shared_book else True,
-                                            minimize_infos=minimize)
+                                            minimize_infos=minimize, included=tuple(included))
         eng.sample_all_epochs()
         res = eng.get_results()
         if late:
@@ -138,10 +140,11 @@ def jobs(rng, quick=True):
         [(2, 4, 2), (4, 3, 3)],
         [(1, 3, 1)],                              # warm-up only: no summary possible
         [(4, 4, 1)],                              # posterior only
+        [(1, 2, 1), (1, 2, 1), (4, 2, 1), (4, 2, 1)],   # epochs with equal configurations (told apart by position only)
     ]
     patterns = ["each_epoch", "none", "warmup_only", "posterior_only", "single_chain", "random", "random"]
     n = 0
-    for sched in scheds if not quick else scheds[:5]:
+    for sched in scheds:
         T = sum(d for _, d, _ in sched)
         ph = [t == 4 for t, d, _ in sched for _ in range(d)]
         starts, acc = set(), 0
@@ -176,7 +179,9 @@ def jobs(rng, quick=True):
                 out.append(dict(tbl=tbl, sched=sched, J=rng.choice([1, g]), seed=n,
                                 continue_after_read=(pat in ("each_epoch", "random", "posterior_only")
                                                      and sum(1 for t, _, _ in sched if t == 4) >= 2),
-                                minimize=(pat == "random")))
+                                minimize=(pat == "random"),
+                                # an additional position that no kernel owns is tracked as well
+                                included=("const",) if (pat == "none" or len(sched) == 4) else ()))
                 if pat in ("each_epoch", "single_chain") and K >= 2:
                     out.append(dict(out[-1], shared_book=True, minimize=False, continue_after_read=False))
                 if pat == "each_epoch":
